@@ -20,87 +20,87 @@ def st(pred):
     return pred
 
 PROPS = {
- 'C01': dict(level='proof', scenarios=[('hist', 4800, 40000)],
+ 'C01': dict(level='proof', scenarios=[('hist', 4800, 120000)],
     primary=['WalkGenuine'], secondary=WALK_SECONDARY,
     nontrivial=dict(stat=lambda s: s[2] >= 1),
     rule='random insert/delete histories (tools/gen.py hist), every path searched after every mutation; non-trivial = a search that matched with >= 1 parameter, distinct by the full observation line',
     explanation='Theorem C01_search_genuine (closed under the global context): for EVERY tree satisfying the decidable structural invariant inv_b, every constraint predicate and every byte path, a match returned by the model\'s search is one of the tree\'s routes laid over the path with exactly the returned values (non-empty, no \'/\' in dynamic values, constraints accept, substitution rebuilds the path). Proof: search_refines_W (tree search = documented walk W on the routes of the tree) + walk_sound. Tie to the code, re-established every run: the extracted checker evaluates inv_b on the dump of the REAL tree after every mutation, runs the model\'s search on that real tree against Router::search (channel OpsSearch), compares routes_of(dump) with the routes of the live templates (Registry, independent grammar), and judges every real search result with genuine_b / W on the live routes. That every reachable tree satisfies inv_b is validated on the real dumps, not proved for the model\'s insert/delete (stated as hypothesis of the theorem). REACHABILITY (Proofs/ReachP.v, closed): every router the model reaches from Router::new by ANY sequence of insert/delete/constraint calls, successful or failing, satisfies wf and tidy, hence inv_b (insert preserves the structural invariant and the dirty discipline, optimize establishes order and flags, delete preserves both without needing optimize, the parser only produces well-formed part lists), so the theorem holds for every history of model operations with no side condition; the implementation is tied to the model by the one-step correspondence from real states and by evaluating inv_b/wf/tidy on every real dump.'),
- 'C02': dict(level='proof', scenarios=[('hist', 4800, 40000)],
+ 'C02': dict(level='proof', scenarios=[('hist', 4800, 120000)],
     primary=['WalkMissed', 'NotRouted'], secondary=WALK_SECONDARY,
     nontrivial=dict(stat=lambda s: s[1] >= 1 and s[2] >= 1),
     rule='as C01; non-trivial = a searched path that some live route fits and whose match binds >= 1 parameter',
     explanation='Theorems C02_no_false_negatives and C02_none_iff_nothing_fits (closed): for every inv_b tree, every constraint predicate, every path: search answers iff some route of the tree fits the path. Proof: search_refines_W + walk_complete (induction on the path; the fitting value is among the enumerated candidates, failures fall through). Tie to the code as for C01 (inv_b and routes checked on real dumps, model search vs real search, any_fits_b/W judge every real answer). REACHABILITY (Proofs/ReachP.v, closed): every router the model reaches from Router::new by ANY sequence of insert/delete/constraint calls, successful or failing, satisfies wf and tidy, hence inv_b (insert preserves the structural invariant and the dirty discipline, optimize establishes order and flags, delete preserves both without needing optimize, the parser only produces well-formed part lists), so the theorem holds for every history of model operations with no side condition; the implementation is tied to the model by the one-step correspondence from real states and by evaluating inv_b/wf/tidy on every real dump.'),
- 'C03': dict(level='proof', scenarios=[('hist', 4800, 40000)],
+ 'C03': dict(level='proof', scenarios=[('hist', 4800, 120000)],
     primary=['WalkPriority', 'WalkGenuine', 'WalkMissed'], secondary=WALK_SECONDARY,
     nontrivial=dict(stat=lambda s: s[1] >= 2),
     rule='as C01; non-trivial = a searched path that >= 2 live routes fit',
     explanation='Theorem C03_search_is_documented_walk (closed): for every inv_b tree, predicate and path, search = W (routes of the tree), field by field (template, expansion, data, parameter list); W (Spec/Walk.v, ~60 lines) is the executable text of the documented priority walk; C03_search_is_walk_of_live_routes lifts it to any arrangement of the routes (W_perm). The order of attempts and the flag gates of Node::search are regenerated from src/node/search.rs every run (Gen/Tables.v) and checked by search_order_documented. Tie: as C01; every real search result is compared with W on the routes induced by the live templates. REACHABILITY (Proofs/ReachP.v, closed): every router the model reaches from Router::new by ANY sequence of insert/delete/constraint calls, successful or failing, satisfies wf and tidy, hence inv_b (insert preserves the structural invariant and the dirty discipline, optimize establishes order and flags, delete preserves both without needing optimize, the parser only produces well-formed part lists), so the theorem holds for every history of model operations with no side condition; the implementation is tied to the model by the one-step correspondence from real states and by evaluating inv_b/wf/tidy on every real dump.'),
- 'C04': dict(level='other', scenarios=[('groups', 2400, 20000), ('parse', 4500, 30000), ('parsex4', 1, 1)],
+ 'C04': dict(level='other', scenarios=[('groups', 2400, 60000), ('parse', 4500, 90000), ('parsex4', 1, 1)],
     primary=['Grammar', 'WalkPriority', 'WalkGenuine', 'WalkMissed', 'Same'], secondary=['Parse', 'OpsSearch', 'Routes'],
     nontrivial=dict(stat=lambda s: False, line=lambda l: l.startswith('parse ') and ' ok ' in l and not l.split()[3] == '1'),
     rule='templates with optional groups: hook output compared with expansions_spec; router holding the grouped template vs router holding its expansions inserted one by one; non-trivial = accepted template with >= 2 expansions',
     explanation='No closed Coq theorem decides this property yet (statement and plan: DESIGN.md section 8). What decides it in this run: (i) correspondence - the executable Gallina model (parser, tree operations, search, Display, error rendering; coq/Model) is run one step from every REAL pre-state on the same operation and must produce the same result and the same tree as the crate; (ii) specification oracles extracted from coq/Spec (independent grammar, registry, W, canonical shape, error-position checker) judge the crate\'s outputs directly. Level `other`: differential + executable-specification checking with the oracles written in Coq; theorems about the model for this property are future work.'),
- 'C05': dict(level='proof', scenarios=[('fresh', 3600, 30000), ('hist', 2400, 20000)],
+ 'C05': dict(level='proof', scenarios=[('fresh', 3600, 90000), ('hist', 2400, 60000)],
     primary=['Same', 'WalkPriority', 'WalkGenuine', 'WalkMissed'], secondary=WALK_SECONDARY + ['Canonical'],
     nontrivial=dict(stat=lambda s: False, line=lambda l: l.startswith('delete ') and l.split()[3] == 'ok'),
     rule='router driven through inserts and deletes vs router built from the survivors in shuffled order (same: dump + Display equal; every search judged against W on the live set); non-trivial = history with a successful delete',
     explanation='Theorem C05_same_routes_same_answers (closed): two inv_b trees holding the same routes, whatever shape, child order, stale flags and dirty marks history left, answer every path identically (search_refines_W + W_perm). The \'print identical trees\' half is decided by the oracle path only: canonical_b on every real dump and dump/Display equality between a history-driven router and one built from the survivors in shuffled order (no canonical-uniqueness theorem yet). REACHABILITY (Proofs/ReachP.v, closed): every router the model reaches from Router::new by ANY sequence of insert/delete/constraint calls, successful or failing, satisfies wf and tidy, hence inv_b (insert preserves the structural invariant and the dirty discipline, optimize establishes order and flags, delete preserves both without needing optimize, the parser only produces well-formed part lists), so the theorem holds for every history of model operations with no side condition; the implementation is tied to the model by the one-step correspondence from real states and by evaluating inv_b/wf/tidy on every real dump.'),
- 'C06': dict(level='proof', scenarios=[('hist', 4800, 40000)],
+ 'C06': dict(level='proof', scenarios=[('hist', 4800, 120000)],
     primary=['Interfere', 'NotRouted'], secondary=WALK_SECONDARY,
     nontrivial=dict(stat=lambda s: s[1] >= 1 and s[3] >= 2),
     rule='same path set searched before and after every mutation; classified by tfits_b; non-trivial = matched path on a router with >= 2 live templates',
     explanation='Theorems C06_unrelated_paths_unchanged and C06_fitted_paths_matched (closed): if t\' holds the routes of t plus new ones (insert; read backwards: delete), every path that none of the new routes fits keeps exactly its answer, and every path a new route fits is matched (search_refines_W + walk_cons_nofit + W_perm + walk_complete). Tie: as C01; the checker also compares the real answers for the same path set before and after every mutation, classified by tfits_b. REACHABILITY (Proofs/ReachP.v, closed): every router the model reaches from Router::new by ANY sequence of insert/delete/constraint calls, successful or failing, satisfies wf and tidy, hence inv_b (insert preserves the structural invariant and the dirty discipline, optimize establishes order and flags, delete preserves both without needing optimize, the parser only produces well-formed part lists), so the theorem holds for every history of model operations with no side condition; the implementation is tied to the model by the one-step correspondence from real states and by evaluating inv_b/wf/tidy on every real dump.'),
- 'C07': dict(level='other', scenarios=[('parsex5', 1, 1), ('parse', 6000, 40000), ('hist', 2400, 20000), ('clone', 600, 4000)],
+ 'C07': dict(level='other', scenarios=[('parsex5', 1, 1), ('parse', 6000, 120000), ('hist', 2400, 60000), ('clone', 600, 12000)],
     primary=['Panic'], secondary=['Parse', 'HarnessCrash'],
     nontrivial=dict(stat=lambda s: False, line=lambda l: l.startswith('parse ') and ' terr ' in l),
     rule='every string of length <= 5 (quick) / 6 (thorough) over / { } ( ) \\ : * a b e-acute Z-caron offered to the parser hook, random well- and malformed templates through insert/delete/search/clone/Display under catch_unwind (debug build, overflow checks on); non-trivial = rejected template',
     explanation='No closed Coq theorem decides this property yet (statement and plan: DESIGN.md section 8). What decides it in this run: (i) correspondence - the executable Gallina model (parser, tree operations, search, Display, error rendering; coq/Model) is run one step from every REAL pre-state on the same operation and must produce the same result and the same tree as the crate; (ii) specification oracles extracted from coq/Spec (independent grammar, registry, W, canonical shape, error-position checker) judge the crate\'s outputs directly. Level `other`: differential + executable-specification checking with the oracles written in Coq; theorems about the model for this property are future work.'),
- 'C08': dict(level='other', scenarios=[('hist', 4800, 40000), ('conflict', 1800, 15000)],
+ 'C08': dict(level='other', scenarios=[('hist', 4800, 120000), ('conflict', 1800, 45000)],
     primary=['SpecInsert'], secondary=['OpsInsert', 'Routes'],
     nontrivial=dict(stat=lambda s: False, line=lambda l: l.startswith('insert ') and l.split()[4] == 'conflict'),
     rule='insert outcome compared with Registry.insert_spec; non-trivial = insert refused with a conflict',
     explanation='No closed Coq theorem decides this property yet (statement and plan: DESIGN.md section 8). What decides it in this run: (i) correspondence - the executable Gallina model (parser, tree operations, search, Display, error rendering; coq/Model) is run one step from every REAL pre-state on the same operation and must produce the same result and the same tree as the crate; (ii) specification oracles extracted from coq/Spec (independent grammar, registry, W, canonical shape, error-position checker) judge the crate\'s outputs directly. Level `other`: differential + executable-specification checking with the oracles written in Coq; theorems about the model for this property are future work.'),
- 'C09': dict(level='other', scenarios=[('hist', 4800, 40000)],
+ 'C09': dict(level='other', scenarios=[('hist', 4800, 120000)],
     primary=['SpecDelete', 'Routes'], secondary=['OpsDelete', 'Tree'],
     nontrivial=dict(stat=lambda s: False, line=lambda l: l.startswith('delete ') and l.split()[3] in ('mismatch', 'ok')),
     rule='delete outcome compared with Registry.delete_spec, routes of the dumped tree with the live set; non-trivial = delete that succeeded or reported a mismatch',
     explanation='No closed Coq theorem decides this property yet (statement and plan: DESIGN.md section 8). What decides it in this run: (i) correspondence - the executable Gallina model (parser, tree operations, search, Display, error rendering; coq/Model) is run one step from every REAL pre-state on the same operation and must produce the same result and the same tree as the crate; (ii) specification oracles extracted from coq/Spec (independent grammar, registry, W, canonical shape, error-position checker) judge the crate\'s outputs directly. Level `other`: differential + executable-specification checking with the oracles written in Coq; theorems about the model for this property are future work.'),
- 'C10': dict(level='other', scenarios=[('hist', 3600, 30000), ('roundtrip', 2400, 20000)],
+ 'C10': dict(level='other', scenarios=[('hist', 3600, 90000), ('roundtrip', 2400, 60000)],
     primary=['Noop', 'Roundtrip'], secondary=['OpsInsert', 'OpsDelete', 'Tree', 'Display'],
     nontrivial=dict(stat=lambda s: False, line=lambda l: (l.startswith('insert ') and l.split()[4] not in ('ok',)) or (l.startswith('delete ') and l.split()[3] != 'ok')),
     rule='dump and Display before/after every failing call; insert followed by delete of the same template compared with the state before; non-trivial = failing call',
     explanation='Closed theorems for the first half on the model: a failing insert / constraint call returns the router unchanged; a failing delete returns it unchanged except for the NotFound that follows the removal loop (C10_failed_delete_partial). The round-trip half (insert then delete restores tree, Display and every search) has no theorem; it is decided by the oracle path: dump and Display compared before/after every failing call (Noop) and after insert∘delete (Roundtrip), with the model\'s operations matched one step from the real state (OpsInsert, OpsDelete, Tree, Display).'),
- 'C11': dict(level='other', scenarios=[('parsex5', 1, 1), ('parse', 9000, 60000)],
+ 'C11': dict(level='other', scenarios=[('parsex5', 1, 1), ('parse', 9000, 180000)],
     primary=['Grammar'], secondary=['Parse'],
     nontrivial=dict(stat=lambda s: False, line=lambda l: l.startswith('parse ') and ' ok ' in l),
     rule='hook output (accept/reject, expansions, decoded parts) vs Grammar.template_spec on every string of length <= 5/6 over the syntax alphabet and on random templates; non-trivial = accepted template',
     explanation='No closed Coq theorem decides this property yet (statement and plan: DESIGN.md section 8). What decides it in this run: (i) correspondence - the executable Gallina model (parser, tree operations, search, Display, error rendering; coq/Model) is run one step from every REAL pre-state on the same operation and must produce the same result and the same tree as the crate; (ii) specification oracles extracted from coq/Spec (independent grammar, registry, W, canonical shape, error-position checker) judge the crate\'s outputs directly. Level `other`: differential + executable-specification checking with the oracles written in Coq; theorems about the model for this property are future work.'),
- 'C12': dict(level='proof', scenarios=[('single', 4500, 40000)],
+ 'C12': dict(level='proof', scenarios=[('single', 4500, 120000)],
     primary=['Greedy'], secondary=WALK_SECONDARY,
     nontrivial=dict(stat=lambda s: s[2] >= 2 and s[3] == 1),
     rule='routers holding one group-free template with >= 2 parameters; returned values judged by leftmost_longest_b; non-trivial = match with >= 2 parameters',
     explanation='Closed theorems: C12_walk_leftmost_longest (the documented walk W over a single route returns the leftmost-longest assignment LL: the values fit and at every parameter, earlier values fixed, no strictly longer value admits a fit of the rest) and C12_single_route_tree_leftmost_longest (hence every inv_b tree holding exactly one route, for every path and constraint predicate, whichever search strategy its flags select). Proof: on a singleton every continuation reaches the same route, `better i i = true`, so the fold keeps the LAST successful candidate (pick_last); candidates are enumerated by strictly increasing length (cands_longer); a longer fitting value would be a later successful candidate by walk_complete. Tie: inv and OpsSearch as for C01; the oracle leftmost_longest_b judges every real answer on single-template routers with >= 2 parameters. REACHABILITY (Proofs/ReachP.v, closed): every router the model reaches from Router::new by ANY sequence of insert/delete/constraint calls, successful or failing, satisfies wf and tidy, hence inv_b (insert preserves the structural invariant and the dirty discipline, optimize establishes order and flags, delete preserves both without needing optimize, the parser only produces well-formed part lists), so the theorem holds for every history of model operations with no side condition; the implementation is tied to the model by the one-step correspondence from real states and by evaluating inv_b/wf/tidy on every real dump.'),
- 'C13': dict(level='proof', scenarios=[('builtin', 3000, 100000), ('hist', 3600, 30000)],
+ 'C13': dict(level='proof', scenarios=[('builtin', 3000, 300000), ('hist', 3600, 90000)],
     primary=['Builtin', 'SpecConstraint', 'SpecInsert', 'WalkMissed'], secondary=['OpsConstraint', 'OpsSearch'],
     nontrivial=dict(stat=lambda s: False, line=lambda l: l.startswith('builtin ') or l.startswith('constraint ')),
     rule='built-in name x value: routed vs str::parse::<T>() called directly; duplicate registration, unknown constraint; fall-through judged by W; non-trivial = builtin or constraint observation',
     explanation='(a) C13_duplicate_name_refused and (d) C13_rejection_skips_one_alternative (completeness for ARBITRARY constraint predicates) are closed theorems; (c) builtin_table_ok is a closed computation over the table regenerated from src/constraints.rs and Router::new every run (17 built-ins, body part.parse::<Self>().is_ok(), all registered). Partial, named: FromStr itself is std code outside the model; tied by the builtin channel (routed vs str::parse::<T>() called directly, boundary numerals and random strings). (b) unknown constraint: Registry.insert_spec judged on every real insert. REACHABILITY (Proofs/ReachP.v, closed): every router the model reaches from Router::new by ANY sequence of insert/delete/constraint calls, successful or failing, satisfies wf and tidy, hence inv_b (insert preserves the structural invariant and the dirty discipline, optimize establishes order and flags, delete preserves both without needing optimize, the parser only produces well-formed part lists), so the theorem holds for every history of model operations with no side condition; the implementation is tied to the model by the one-step correspondence from real states and by evaluating inv_b/wf/tidy on every real dump.'),
- 'C14': dict(level='other', scenarios=[('parsex5', 1, 1), ('parse', 9000, 60000)],
+ 'C14': dict(level='other', scenarios=[('parsex5', 1, 1), ('parse', 9000, 180000)],
     primary=['ErrOk', 'RenderField'], secondary=['Parse', 'RenderParse'],
     nontrivial=dict(stat=lambda s: False, line=lambda l: l.startswith('parse ') and ' terr ' in l),
     rule='every template error from the exhaustive and random streams judged by err_ok_b and terr_render_ok; non-trivial = rejected template',
     explanation='Rendering half proved (C14_render_caret_line, closed, over the regenerated formats: the message shows the reported template followed by a caret line of exactly `position` spaces and `length` carets). The \'fault really present\' half has no theorem about the parser model yet; it is decided by the oracle err_ok_b (reported text is the input or one of its expansions by the independent list grammar; offsets in range; indicated bytes are the offending construct) on every error the crate produces over every string of length <= 5/6 over the syntax alphabet and random malformed templates; plus Parse/RenderParse correspondence.'),
- 'C15': dict(level='other', scenarios=[('hist', 4800, 40000)],
+ 'C15': dict(level='other', scenarios=[('hist', 4800, 120000)],
     primary=['Canonical', 'Routes', 'Display'], secondary=['Tree'],
     nontrivial=dict(stat=lambda s: False, line=lambda l: l.startswith('delete ') and l.split()[3] == 'ok'),
     rule='canonical_b and routes_same on the dump after every mutation, Display text vs Model.display of the dump; non-trivial = successful delete',
     explanation='Closed theorems for every router the model reaches by any history (C15_reachable_tree_is_ordered_and_alive, C15_shape_of_a_wf_tidy_node): literal siblings have non-empty prefixes with pairwise different first bytes and are strictly sorted; siblings of each parameter kind are strictly sorted by (name, constraint); no empty node exists below the root, so every leaf is marked; catch-all nodes carry data and have no children. Kind order is fixed by the printer (Model/Display.v, matched against the real Display on every dump). NOT proved: maximal compression of literal chains and that the routes of the tree are exactly the live routes - decided by canonical_b and routes_same (against the registry built with the independent grammar) on every real dump, and by the Display channel (model printer incl. from_utf8_lossy on the real dump = to_string()).'),
- 'C16': dict(level='other', scenarios=[('clone', 1800, 15000)],
+ 'C16': dict(level='other', scenarios=[('clone', 1800, 45000)],
     primary=['DumpOf', 'SpecDelete', 'SpecInsert', 'WalkPriority', 'WalkGenuine', 'WalkMissed', 'Roundtrip'], secondary=['OpsDelete', 'OpsInsert', 'OpsSearch', 'Tree'],
     nontrivial=dict(stat=lambda s: False, line=lambda l: l.startswith('dumpof ') and ' D ' in l),
     rule='families of routers related by clone; every router dumped after every operation on any member; non-trivial = distinct non-empty dump of a family member observed after an operation on another member or a clone',
     explanation='The model is functional, so a family of routers related by clone is a list and independence holds by construction (C16_* closed, deliberately small). What the model cannot represent is Arc aliasing between a router and its clone (the defect repaired by 93e6281). That is decided by the clone scenario: every family member is dumped after every operation on any member and must be unchanged (DumpOf), every operation on a clone is matched against the model one step from the real state and judged by insert_spec/delete_spec and W.'),
- 'C17': dict(level='other', scenarios=[('oci', 12000, 100000), ('ocinamex6', 1, 1)],
+ 'C17': dict(level='other', scenarios=[('oci', 12000, 300000), ('ocinamex6', 1, 1)],
     primary=['Oci', 'OciName'], secondary=['OciModel'],
     nontrivial=dict(stat=lambda s: False, line=lambda l: l.startswith('oci ') and ' S ' in l),
     rule='method x URL over the six endpoint shapes with names from the repository-name grammar (and violations of it), tokens, trailing slash, mutations; name constraint (regex crate) vs name_ok on every string of length <= 6 over a 0 . _ - / A; non-trivial = routed URL',
@@ -110,7 +110,7 @@ PROPS = {
     nontrivial=dict(stat=lambda s: s[1] >= 1),
     rule='4-16 threads searching one shared router; every answer judged by W; dump before = dump after; non-trivial = matched search',
     explanation='Send/Sync is decided by rustc (harness/src/main.rs: assert_send_sync::<Router<u32>>() - the harness does not build otherwise). Coq part, deliberately small: C18_no_hidden_state over the inventory regenerated from src/ every run (no static items, interior mutability, unsafe, ambient state; Constraint: Send + Sync) and C18_schedule_independent on the functional model. Runtime: 4-16 threads searching a shared router for up to 60 rounds incl. deep routes, every answer judged by W, dump before = dump after. Thread interleavings themselves are runtime behaviour the model cannot exhibit.'),
- 'C19': dict(level='proof', scenarios=[('hist', 4800, 40000)],
+ 'C19': dict(level='proof', scenarios=[('hist', 4800, 120000)],
     primary=['RenderField', 'SpecInsert', 'SpecDelete', 'SpecConstraint'], secondary=['RenderInsert', 'RenderDelete', 'RenderConstraint', 'OpsInsert', 'OpsDelete', 'OpsConstraint'],
     nontrivial=dict(stat=lambda s: False, line=lambda l: (l.startswith('insert ') and l.split()[4] not in ('ok',)) or (l.startswith('delete ') and l.split()[3] != 'ok') or (l.startswith('constraint ') and ' dup ' in l)),
     rule='payload of every error vs the registry specification; rendered message must contain every payload string; non-trivial = failing call',
